@@ -9,8 +9,12 @@ Print Assumptions C18_spec_ok_on_model.
 Check (C18_spec_ok_serve_iff : forall entries steps o,
   spec_ok (CServe entries steps) o = true <->
   wf_case (CServe entries steps) = true /\
-  o = OServe (map (spec_sout (spec_allowlist_s (map snd entries))) steps)).
+  exists l, o = OServe l /\ l = spec_souts (spec_allowlist_s (map snd entries)) steps l).
 Print Assumptions C18_spec_ok_serve_iff.
+Check (C18_spec_souts_meaning : forall al steps l,
+  l = spec_souts al steps l <->
+  length l = length steps /\ forall i st o, nth_error steps i = Some st -> nth_error l i = Some o -> o = spec_sout al st o).
+Print Assumptions C18_spec_souts_meaning.
 Check (C18_spec_ok_entry_sound : forall e intent peers o,
   spec_ok (CEntry e intent peers) o = true ->
   exists lib built std bits, o = OEntry lib built std bits /\
